@@ -136,6 +136,44 @@ fn c15_a64_out_of_range_refused() {
     std::mem::forget(g);
 }
 
+/// C15.entry.macos (T5 variant) — the macOS arm of the real `apply_branch_patch` for EVERY trampoline
+/// address the macOS allocator contract allows (within 2 GiB): the 12 entry bytes are either
+/// `B jit; NOP; NOP` or `ADRP x16; ADD x16; BR x16`, and executing them lands exactly on the trampoline,
+/// writing at most x16.
+#[cfg(verif_macos)]
+#[kani::proof]
+#[kani::unwind(26)]
+#[kani::stub(crate::injector_core::linuxapi::__clear_cache, os::flush)]
+fn c15_entry_macos() {
+    fresh_world();
+    unsafe {
+        os::SNAP_ON = true;
+    }
+    let base = os::mem_base();
+    let jit: usize = kani::any();
+    let d = jit as i128 - (base + 16) as i128;
+    kani::assume(d >= -0x8000_0000 && d <= 0x8000_0000 && jit % 4096 == 0);
+    kani::assume(base <= (isize::MAX as usize) / 2 && jit <= isize::MAX as usize);
+    unsafe {
+        ALLOW = 0;
+    }
+    let orig: [u8; 12] = kani::any();
+    let g = apply_branch_patch(fp(os::mem_ptr(16)), jit as *mut u8, 20, &orig);
+    let w = [word(16), word(20), word(24)];
+    let regs: [u64; 32] = kani::any();
+    let run = a64_run(&w, 3, (base + 16) as u64, &regs);
+    assert!(run.end == A64End::Jump(jit as u64), "OBL:C15.entry.macos.lands: the macOS entry (direct B or ADRP/ADD/BR) transfers control to exactly the trampoline");
+    assert!(run.written & !(1 << 16) == 0, "OBL:C15.entry.macos.regs: at most x16 is written");
+    assert!(g_size(&g) == 12 && g_func(&g) == base + 16 && g_jit(&g) == jit, "OBL:C12.own.a64.macos: the guard owns exactly the trampoline it was given");
+    let oi: usize = kani::any();
+    kani::assume(oi < os::ARENA && !(oi >= 16 && oi < 28));
+    assert!(unsafe { os::MEM[oi] == SNAPSHOT[oi] }, "OBL:C03.frame.a64.macos: only the 12 entry bytes change");
+    std::mem::forget(g);
+    kani::cover!(d > (1 << 27), "COVER:long-form");
+    kani::cover!(d < (1 << 27) && d >= -(1 << 27), "COVER:short-form");
+    kani::cover!(true, "COVER:end");
+}
+
 // the reach the Linux/AArch64 allocator contract guarantees (same constants as contracts/verus_alloc.py)
 pub(crate) const A64_REACH_LO: i128 = -0x8000000;
 pub(crate) const A64_REACH_HI: i128 = 0x7FFFFFF;
